@@ -123,6 +123,7 @@ var c01Counts = []types.Counters{{BytesRcvd: 10, BytesSent: 20, PacketsRcvd: 3, 
 const c01Day0 = int64(1700006400) // 2023-11-15 00:00:00 UTC, a day boundary
 
 func c01Run(x *explore.Ctx) {
+	gpfile.VerifResetPools()
 	encs := c01Encoders(x.Tier)
 	enc := encs[x.Case%len(encs)]
 	maxBlocks := 3
